@@ -1,4 +1,69 @@
-/-! oracle driver for the graph engine (to be written) -/
+import Spok.Graph
+import Spok.Judge.Graph
+/-! oracle driver for the graph engine (C03)
+
+case:   `TASKS a:b,c b: c:a ; REQ a zz ; FAIL b ; REP 0`   (`-` = empty list; definitions and dependencies in source order)
+impl:   `OUTCOME ok|duplicate|no-such-task|no-such-dependency|cycle|other|… ; ORDER a b c ; RESULTS a b c`
+model:  the same three sections.  Go's map iteration order inside `dag.Sort` cannot be observed from outside the
+        library, but Kahn's algorithm with a FIFO queue is determined by the relative order in which simultaneously
+        ready vertices are enqueued, and that order is visible in the output: the model is run with the *observed order*
+        as the oracle's hint at every iteration point and must then reproduce the observed order exactly.
+verdict: `C03=ok|FAIL` — `Judge.Graph.c03` on what the implementation did. -/
 namespace Spok.Oracle.Graph
-def handle (line : String) : String := "TODO " ++ line
+open Spok.Graph Spok.Judge.Graph
+
+def words (s : String) : List String := (s.splitOn " ").filter (· ≠ "")
+
+def listOf (s : String) : List String := (words s).filter (· ≠ "-")
+
+def sect (secs : List String) (name : String) : Option String :=
+  (secs.find? (fun s => s.startsWith (name ++ " ") || s == name)).map fun s => ((s.drop (name.length)).toString.trimAscii).toString
+
+def parseDef (w : String) : Option (String × List String) :=
+  match w.splitOn ":" with
+  | [n, ds] => if n.isEmpty then none else some (n, (ds.splitOn ",").filter (· ≠ ""))
+  | _ => none
+
+def errName : Err → String
+  | .duplicate => "duplicate" | .noSuchTask => "no-such-task" | .noSuchDependency => "no-such-dependency"
+  | .cycle => "cycle" | .other => "other"
+
+def errOfName : String → Option (Option Err)
+  | "ok" => some none
+  | "duplicate" => some (some .duplicate) | "no-such-task" => some (some .noSuchTask)
+  | "no-such-dependency" => some (some .noSuchDependency) | "cycle" => some (some .cycle) | "other" => some (some .other)
+  | _ => none
+
+def showList (l : List String) : String := if l.isEmpty then "-" else " ".intercalate l
+
+def b2s (b : Bool) : String := if b then "ok" else "FAIL"
+
+def handle (line : String) : String :=
+  match line.splitOn " | " with
+  | [c, impl] =>
+    let cs := (c.splitOn " ; ").map (fun x => x.trimAscii.toString)
+    let is := (impl.splitOn " ; ").map (fun x => x.trimAscii.toString)
+    match (sect cs "TASKS").bind (fun s => (listOf s).mapM parseDef), sect cs "REQ", sect cs "FAIL" with
+    | some ts, some req, some fl =>
+      let req := listOf req
+      let fl := listOf fl
+      let fails : String → Bool := fun n => fl.contains n
+      let seen := ((sect is "ORDER").map listOf).getD []
+      let o : Oracle String := ⟨seen, fun _ => seen⟩
+      let model := match exec o ts req fails with
+        | .ok obs =>
+          let oc := match obs.err with | none => "ok" | some e => errName e
+          s!"OUTCOME {oc} ; ORDER {showList obs.calls} ; RESULTS {showList obs.calls}"
+        | .error _ => "OUTCOME model-error ; ORDER - ; RESULTS -"
+        | .spin => "OUTCOME spin ; ORDER - ; RESULTS -"
+      -- judge: on the implementation's observation; Runner calls and `results` must tell the same story
+      let verdict := match (sect is "OUTCOME").bind errOfName, sect is "ORDER", sect is "RESULTS" with
+        | some e, some ord, some res =>
+          let ord := listOf ord
+          b2s (c03 ts req fails ⟨e, ord⟩ && (e.isSome || listOf res == ord))
+        | _, _, _ => "FAIL"
+      s!"{model} || C03={verdict}"
+    | _, _, _ => "BAD-CASE || C03=FAIL"
+  | _ => "BAD-LINE || C03=FAIL"
+
 end Spok.Oracle.Graph
